@@ -77,6 +77,20 @@ theorem C03_training_materialised_counterexample :
   rw [trainWitness_rows]
   decide
 
+/-- Regression for seeded change S8-C03 (the hold-out drawn BEFORE smoothing, the smoother applied to the training half only): on the
+    witness, holding out row 2 and then dropping the one-plate sample `s1` from the training half through `subset(...).to_screen()`
+    gives a training screen in which sample `s7` has id 0 and `(t5, 1)`, `(t7, 1)` have ids 0, 1, while the test screen of the same split
+    carries `s7` as 1 and `(t7, 1)`, `(t5, 1)` as 3, 2: clause 1 fails for the two screens of that "prepared simulation".  (With the
+    smoother applied BEFORE the split both halves carry the smoothed screen's mappings: C03_holdout_preserves_mappings.) -/
+theorem C03_smoothing_after_split_counterexample :
+    holdout trainWitness [false, false, true] = .ok (splitWitnessKeep, splitWitnessTest)
+    ∧ splitWitnessKeep.viewToScreen { parent := 0, sel := [false, true] } = .ok splitWitnessKeepSmoothed
+    ∧ splitWitnessKeepSmoothed.snames = splitWitnessTest.snames
+    ∧ splitWitnessKeepSmoothed.sids = [0] ∧ splitWitnessTest.sids = [1]
+    ∧ splitWitnessKeepSmoothed.tnames = [[[116, 53], [116, 55]]] ∧ splitWitnessKeepSmoothed.tids = [[0, 1]]
+    ∧ splitWitnessTest.tnames = [[[116, 55], [116, 53]]] ∧ splitWitnessTest.tids = [[3, 2]] :=
+  ⟨splitWitness_holdout, splitWitness_smooth_training_only, rfl, rfl, rfl, rfl, rfl, rfl, rfl⟩
+
 /-! ### non-vacuity -/
 
 /-- the witness is a constructed screen that hands two rows to the model, and the first theorem applies to them -/
